@@ -62,7 +62,7 @@ func decDone(c *Ctx) {
 type decPlan struct{ nStruct, nValid, nMut, nTok, nRand, nDegen int64 }
 
 func decPlanFor(c *Ctx) decPlan {
-	p := decPlan{nStruct: int64(len(gen.GLit) * gen.NumOffClasses), nValid: 300, nMut: 700, nTok: 500, nRand: 1500, nDegen: 1}
+	p := decPlan{nStruct: int64(len(gen.GLit) * gen.NumOffClasses), nValid: 300, nMut: 700, nTok: 500, nRand: 1500, nDegen: 2}
 	if c.Tier == "thorough" {
 		p.nValid, p.nMut, p.nTok, p.nRand = 6000, 30000, 20000, 60000
 	}
@@ -442,7 +442,69 @@ func decCase(c *Ctx, i int64) {
 			}
 		}
 	default:
+		if i == decPlanFor(c).total()-1 {
+			decHugeLengths(c, i, &sub)
+			return
+		}
 		decDegenerate(c, i, &sub)
+	}
+}
+
+// decHugeLengths: length codes that add up to 2^32 and more (16.8 million continuation bytes of 255).
+// Such a block asks for more output than any destination here holds: it must be rejected, by both
+// decoders; a length accumulated in 32 bits wraps to a small number and the block is accepted.
+// Heap buffers only (the block does not fit the guard-page arenas); the destination has a canary.
+func decHugeLengths(c *Ctx, i int64, sub *uint32) {
+	const nFF = (1<<32)/255 + 1 // 255*nFF = 2^32 + 15 (so 15+255*nFF and 19+255*nFF are just above 2^32)
+	ff := bytes.Repeat([]byte{0xFF}, nFF)
+	tailLit := []byte{0x50, 'v', 'w', 'x', 'y', 'z'} // final literal-only sequence
+	for _, rem := range []byte{0, 1, 7, 40, 200} {
+		for kind := 0; kind < 2; kind++ {
+			var blk []byte
+			name := "literal-length"
+			if kind == 0 {
+				// literal length 15 + 255*nFF + rem, then some literal bytes (far fewer than announced)
+				blk = append([]byte{0xF0}, ff...)
+				blk = append(blk, rem)
+				blk = append(blk, bytes.Repeat([]byte{'L'}, 64)...)
+			} else {
+				name = "match-length"
+				// 8 literals, offset 4, match length 4 + 15 + 255*nFF + rem; then a well-formed end
+				blk = append([]byte{0x8F}, []byte("abcdefgh")...)
+				blk = append(blk, 4, 0)
+				blk = append(blk, ff...)
+				blk = append(blk, rem)
+				blk = append(blk, tailLit...)
+			}
+			for _, dl := range []int{64, 300, 70000} {
+				*sub++
+				back := make([]byte, dl+160)
+				mon.CanaryFill(back, 0xA5)
+				dst := back[80 : 80+dl]
+				var n int
+				var err error
+				fault := mon.CallGuarded(func() { n, err = lz4.UncompressBlock(blk, dst) })
+				c.Count("decode_calls", 1)
+				c.Count("huge_length_code_calls", 1)
+				detail := map[string]interface{}{"kind": name, "continuation_bytes": nFF, "last_length_byte": rem, "dst_len": dl, "src_len": len(blk)}
+				if ds.mode == "C12" {
+					continue
+				}
+				switch {
+				case fault.Panicked:
+					c.ViolationAs("C03", "panic/huge-length-code", fmt.Sprintf("UncompressBlock panics on a block whose %s adds up to more than 2^32: %s", name, fault.Msg), detail)
+				case err == nil:
+					c.ViolationAs("C04", "invalid-block-accepted/output-too-large/length-over-2^32", fmt.Sprintf("a block whose %s adds up to more than 2^32 bytes is accepted with n=%d for a %d-byte destination", name, n, dl), detail)
+				default:
+					if bad := mon.CanaryCheckRange(back, 0xA5, 80+dl, len(back)); bad >= 0 {
+						c.ViolationAs("C03", "write-beyond-len", fmt.Sprintf("UncompressBlock modified dst[len+%d] while rejecting a block with a length over 2^32", bad), detail)
+					} else if mon.CanaryCheckRange(back, 0xA5, 0, 80) >= 0 {
+						c.ViolationAs("C03", "write-before-dst", "UncompressBlock modified memory in front of dst while rejecting a block with a length over 2^32", detail)
+					}
+				}
+				c.Cell(fmt.Sprintf("huge-length/%s/rem%d/dst%d", name, rem, dl))
+			}
+		}
 	}
 }
 
